@@ -266,6 +266,37 @@ static void poly_crafted(long item)
     }
 }
 
+/* ------------------------------------------------------------------ Poly1305 cases built backwards (ref/gen_poly_cases.py):
+ * messages whose accumulator before the final reduction is a chosen limb-boundary value, and keys whose r^2 / r^4 sit on the
+ * partial-reduction boundary.  Expected tags come from the big-integer definition; the C reference must agree as well. */
+static unsigned char *pc_data; static long pc_n; static size_t *pc_off;
+static void poly_cases_load(void)
+{
+    const char *path = getenv("VERIF_POLY_CASES"); FILE *f; long sz, i; size_t o; uint32_t n;
+    if (!path || !(f = fopen(path, "rb"))) { printf("INFO poly cases file not available\n"); return; }
+    fseek(f, 0, SEEK_END); sz = ftell(f); fseek(f, 0, SEEK_SET); pc_data = malloc((size_t) sz);
+    if (fread(pc_data, 1, (size_t) sz, f) != (size_t) sz) exit(2);
+    fclose(f); memcpy(&n, pc_data, 4); pc_n = (long) n; pc_off = malloc(sizeof(size_t) * (size_t) (pc_n + 1));
+    for (i = 0, o = 4; i < pc_n; i++) { pc_off[i] = o; o += 32 + 2 + (size_t) (pc_data[o + 32] | pc_data[o + 33] << 8) + 16 + 24; }
+    if (o != (size_t) sz) { fprintf(stderr, "poly cases file corrupt\n"); exit(2); }
+}
+static void poly_cases_slice(long w)
+{
+    long i;
+    for (i = w; i < pc_n; i += 16) {
+        const unsigned char *rec = pc_data + pc_off[i], *key = rec, *msg = rec + 34, *tag; size_t len = (size_t) (rec[32] | rec[33] << 8); char kind[25];
+        unsigned char o1[16], o2[16], o3[16]; crypto_onetimeauth_state st;
+        tag = msg + len; memcpy(kind, tag + 16, 24); kind[24] = 0;
+        ref_poly1305(o2, msg, len, key);
+        if (memcmp(o2, tag, 16)) { char k[160]; snprintf(k, sizeof k, "poly-cases/reference-disagreement/%s/#%ld", kind, i); vf_fail(k, "C reference and big-integer definition disagree (harness defect)"); continue; }
+        crypto_onetimeauth(o1, msg, len, key);
+        CMP("onetimeauth-built-backwards/%s/key=%s/len=%zu/#%ld", o1, tag, 16, kind, vf_hex(key, 32), len, i);
+        crypto_onetimeauth_init(&st, key); crypto_onetimeauth_update(&st, msg, len / 3); crypto_onetimeauth_update(&st, msg + len / 3, len - len / 3); crypto_onetimeauth_final(&st, o3);
+        CMP("onetimeauth-built-backwards-multipart/%s/key=%s/len=%zu/#%ld", o3, tag, 16, kind, vf_hex(key, 32), len, i);
+        if (crypto_onetimeauth_verify(tag, msg, len, key) != 0) { char k[200]; snprintf(k, sizeof k, "onetimeauth_verify-built-backwards/%s/key=%s/len=%zu/#%ld", kind, vf_hex(key, 32), len, i); vf_fail(k, "correct tag rejected"); }
+    }
+}
+
 /* ------------------------------------------------------------------ chunking: state graph over ALL chunkings */
 typedef struct {
     const char *name; size_t statesz, outlen, N; int param;
@@ -415,6 +446,8 @@ int main(void)
     vf_parallel(16, 1, 65, blake_outlen, fin);
     vf_parallel(16, 0, 23, kdf_all, fin);
     vf_parallel(14, 0, 14, poly_crafted, fin);
+    poly_cases_load(); if (pc_n) vf_parallel(16, 0, 16, poly_cases_slice, fin);
+    vf_stat("poly_cases_built_backwards", (unsigned long long) pc_n);
     vf_parallel(16, 0, napis, graph_api, fin);
     refusals(); null_inputs(); fin();
     vf_sample("sha512 chunk graph: message of 393 bytes, node t = canonical state after M[0:t], edge = update(M[t:u]) for every t<u, final() checked at every node");
